@@ -108,7 +108,8 @@ def read (rd : Reader) : Except ReaderError Token × Reader :=
   | (.ok none, rd') => (.error (rd'.lexError .eof), rd')
   | (.error e, rd') => (.error e, rd')
 
-/-- reader.rs:94 `read_bytes` -/
+/-- reader.rs:94 `read_bytes`: the `while window_len() < bytes { fill_buf }` loop, then the raw
+slice at `start` and `advance(bytes)`. -/
 def readBytesLoop : Nat → Reader → Nat → Except ReaderError Bytes × Reader
   | 0, rd, _ => (.error { position := rd.position, kind := .fuel }, rd)
   | fuel + 1, rd, bytes =>
@@ -121,7 +122,10 @@ def readBytesLoop : Nat → Reader → Nat → Except ReaderError Bytes × Reade
         let rd' : Reader := { src := s, buf := b }
         (.error (rd'.bufferError e), rd')
     else
-      let input := rd.buf.window.take bytes
+      -- `std::slice::from_raw_parts(self.buf.start, bytes)`: a raw read of `bytes` bytes at the
+      -- *current* `start` (i.e. after every refill of the loop above has moved the window),
+      -- not narrowed to the window
+      let input := (rd.buf.mem.drop rd.buf.start).take bytes
       match rd.buf.advance bytes with
       | some b => (.ok input, { rd with buf := b })
       | none => (.error rd.ubError, rd)
